@@ -616,8 +616,11 @@ class Grid(object):
                     fh.write("{0:<22} {1}\n".format(pattr.upper(),
                                                     getattr(self, pattr)))
 
-        # Print data
-        self._data.tofile(filename)
+        # Print data through a python file object: a write that fails
+        # (disk full, quota) then raises. numpy's tofile ignores errors
+        # reported when its own stream is flushed and closed.
+        with open(filename, "wb") as fbil:
+            fbil.write(np.ascontiguousarray(self._data))
 
     def fill(self, value):
         """ Initialise grid value
